@@ -60,6 +60,12 @@ def raw_blocks(rng, tier):
         yb = bytes(b & 255 for b in yawgen.encode(y))
         yield ("yaw", "long-block", yb)
         yield ("yaw", "long-block-cut", yb[:rng.randint(min(65536, len(yb) - 2), len(yb) - 1)])
+    # altitude segments that are really of lower degree stored as cubics (the closed forms behind touches / solve)
+    from . import statgen
+    for _ in range(40 if thorough else 12):
+        tr, _sc, _A, _k = statgen.closed_form_traj(rng)
+        if max(max(s["z"]) if s["z"] else 0 for s in tr["segs"]) <= 32767:
+            yield ("traj", "closed-form", bytes(b & 255 for b in trajgen.encode(tr)))
     # long varints / deep nesting / huge durations in light programs
     yield ("light", "special", bytes([0x02] + [0x80] * 12 + [0x01, 0x04, 1, 2, 3, 5, 0]))
     yield ("light", "special", bytes([0x0c, 2] * 6 + [0x02, 1] + [0x0d] * 6 + [0x04, 9, 9, 9, 50, 0]))
